@@ -29,7 +29,8 @@ var recRelay = ev.New("C11", "relay-scenarios",
 		"garbage-first-then-valid-same-socket", "garbage-first:no", "garbage-first:sendmmsg",
 		"relay-switch:ss2022:sendmmsg", "relay-switch:ss2022:no", "relay-switch:nat:sendmmsg", "relay-switch:nat:no",
 		"burst-with-unsendable:sendmmsg", "burst-with-unsendable:no",
-		"backlog-exceeds-relay-batch:sendmmsg", "send-channel-overflow:no", "send-channel-overflow:sendmmsg")
+		"backlog-exceeds-relay-batch:sendmmsg", "send-channel-overflow:no", "send-channel-overflow:sendmmsg",
+		"batch>send-channel-capacity/backlog>=capacity")
 
 func workDir(t interface{ TempDir() string }) string {
 	if d := os.Getenv("VERIF_WORK"); d != "" {
@@ -252,6 +253,10 @@ func fixedPlans() []*plan {
 		backlogPlan(55, "socks5", "no", 0, 64, 100),
 		backlogPlan(56, "none", "no", 0, 64, 90),
 		backlogPlan(57, ss, "no", 0, 64, 100),
+		// send channel capacity (64) smaller than the relay batch size (default 256, 128, 1024), backlog >= capacity
+		backlogPlan(58, "socks5", "sendmmsg", 0, 64, 100),
+		backlogPlan(59, "none", "sendmmsg", 128, 64, 70),
+		backlogPlan(60, ss, "sendmmsg", 1024, 64, 64),
 	}
 }
 
